@@ -432,16 +432,15 @@ theorem c12_dummy_per_dtype (g : Getter) (p : Props) (dumps : List Rat) (period 
   unfold extract
   rw [c12_dummy_knots g p h hi]
   have hne : (g.dtype != DType.float) = true := by simp [bne_iff_ne, hd]
-  simp only [hc, Option.getD_none, hne, if_true, catPath, ht, hi, hl]
   have hf : (List.filter (fun k : Rat × Val => decide (k.1 ≤ dl + period / 2))
-      (List.map (fun k => (k.1, applyTransform none k.2)) [((0 : Rat), dummyVal g.dtype)])) =
-      [((0 : Rat), dummyVal g.dtype)] := by
-    simp [applyTransform, h0]
-  simp only [hf, List.isEmpty_cons, Bool.false_eq_true, if_false, Except.map]
+      [((0 : Rat), dummyVal g.dtype)]) = [((0 : Rat), dummyVal g.dtype)] := by
+    simp [h0]
+  simp only [hc, Option.getD_none, hne, if_true, catPath, ht, hi, hl, hf, List.isEmpty_cons,
+    Bool.false_eq_true, if_false, transformKnots, applyTransform, Except.map]
   congr 2
   apply List.map_congr_left
   intro d _
-  simp only [catAt, List.map_cons, List.map_nil, applyTransform]
+  simp only [catAt]
   by_cases hle : (0 : Rat) ≤ d + period / 2 <;> simp [hle]
 
 -- non-vacuity of `c12_dummy_per_dtype`: a bool sensor whose only sample is unreadable
